@@ -29,6 +29,9 @@
   * `nameprep_bucher`, `validHost_alabel_outright`, `validHostFull_closed_form`, `sni_full`
                               nameprep (map, NFKC of ucd_3_2_0, prohibit, bidi) inside the model on tables regenerated from the interpreter:
                               `validHostFull` has no parameter; an IDN name is valid outright
+  * `dtlsFlight_eq_records`, `record_short_header_incomplete`, `validHostN_ascii`, `sni_is_ascii`
+                              (owner round 6) the DTLS flight = `records ∘ fragsOf` as op `build` runs them; short headers are incomplete;
+                              a valid host is ASCII for every nameprep, hence `ClientHello.sni`'s final decode cannot raise
   * `record_any_size_accepted`, `record_header_prefix_incomplete`
                               records of every length 1…65535 are read (no 2^14 bound in the code; examples at 16384, 16385, 65535);
                               a header announcing any such length with too few bytes after it is incomplete, never invalid
@@ -595,7 +598,9 @@ private theorem complete?_nil (dtls : Bool) : complete? dtls [] = none := by
   cases dtls <;> rfl
 
 /-- **record_split_invariant** — how the handshake bytes are cut into (valid, non-empty) records does not
-    matter: two record sequences with the same concatenated contents parse alike. TLS and DTLS. -/
+    matter: two record sequences with the same concatenated contents parse alike. TLS and DTLS — for DTLS this is the
+    code's own notion (record bodies concatenated as a byte stream, NO per-fragment handshake headers), which is not how DTLS
+    splits a message; real DTLS fragmentation is `DtlsFragmentInvariant` / finding F-C13a below. -/
 theorem record_split_invariant (dtls : Bool) (a b : List (Bytes × Bytes))
     (ha : ∀ ch ∈ a, ValidChunk dtls ch) (hb : ∀ ch ∈ b, ValidChunk dtls ch)
     (h : contents a = contents b) : parse dtls (records a) = parse dtls (records b) := by
@@ -1340,9 +1345,9 @@ example (rest : Bytes) : nextRecord true (mkRecord [0x16, 0xfe, 0xfd, 0, 0, 0, 0
     = .ok (List.replicate 65535 7, rest) :=
   record_any_size_accepted true _ _ rest (by decide) (by decide) (by rw [List.length_replicate]; omega) (by rw [List.length_replicate]; omega)
 
-/-- **record_header_prefix_incomplete** — fewer bytes than a record header (5 / 13) never give a verdict, and a
-    complete, plausible header with a non-zero length followed by too few body bytes is "incomplete", never
-    "invalid" — whatever the announced length (16384 included). -/
+/-- **record_header_prefix_incomplete** — a complete, plausible header with a non-zero length followed by too few body bytes
+    is "incomplete", never "invalid" — whatever the announced length (16384 included). (Fewer bytes than a header:
+    `record_short_header_incomplete`.) -/
 theorem record_header_prefix_incomplete (dtls : Bool) (pre c : Bytes) (k : Nat)
     (hpre : pre.length + 2 = hdrLen dtls) (hstart : startsLike dtls pre = true)
     (hpos : 0 < c.length) (hmax : c.length ≤ 65535) (hk : k < c.length) :
@@ -1367,6 +1372,173 @@ theorem record_header_prefix_incomplete (dtls : Bool) (pre c : Bytes) (k : Nat)
 
 example : nextRecord false ([0x16, 3, 3] ++ w16 (List.replicate 16384 (7 : UInt8)).length ++ (List.replicate 16384 7).take 0) = .incomplete :=
   record_header_prefix_incomplete false [0x16, 3, 3] (List.replicate 16384 7) 0 (by decide) (by decide) (by rw [List.length_replicate]; omega) (by rw [List.length_replicate]; omega) (by rw [List.length_replicate]; omega)
+
+
+/-! ## owner round 6: the builder as the driver runs it, short headers, valid hosts are ASCII -/
+
+/-- **dtlsFlight_eq_records** — the flight the DTLS theorems quantify over is `records` of the `fragsOf` fragments under one record
+    prefix: exactly the two functions op `build` executes and compares byte for byte with the harness's fragmenter. -/
+theorem dtlsFlight_eq_records (pre seq body : Bytes) (sizes : List Nat) :
+    dtlsFlight pre seq body sizes = records ((fragsOf seq body.length 0 body sizes).map (fun f => (pre, f))) := by
+  unfold dtlsFlight records
+  rw [List.flatMap_map]
+
+/-- **record_short_header_incomplete** — fewer bytes than a record header (5 for TLS, 13 for DTLS) never give a verdict -/
+theorem record_short_header_incomplete (dtls : Bool) (d : Bytes) (h : d.length < hdrLen dtls) :
+    nextRecord dtls d = .incomplete ∧ parse dtls d = .incomplete := by
+  have h1 : nextRecord dtls d = .incomplete := by
+    unfold nextRecord; simp only; rw [if_pos h]
+  refine ⟨h1, ?_⟩
+  unfold parse getHello
+  rw [getHelloF, h1]
+
+/-! ### a valid host name is ASCII (so `host_name.decode("ascii")` in `ClientHello.sni` cannot raise) -/
+
+private theorem mapAll_some_mem {α β : Type} (f : α → Option β) : ∀ (l : List α) (rs : List β),
+    mapAll f l = some rs → ∀ a ∈ l, ∃ b, f a = some b := by
+  intro l
+  induction l with
+  | nil => intro rs _ a ha; simp at ha
+  | cons x xs ih =>
+    intro rs h a ha
+    simp only [mapAll] at h
+    cases hx : f x with
+    | none => rw [hx] at h; simp at h
+    | some b =>
+      cases hxs : mapAll f xs with
+      | none => rw [hx, hxs] at h; simp at h
+      | some bs =>
+        simp only [List.mem_cons] at ha
+        rcases ha with rfl | ha
+        · exact ⟨b, hx⟩
+        · exact ih bs hxs a ha
+
+private theorem punyDecode_ascii (t : List Nat) (r : Cps) (h : punyDecode t = some r) : ∀ c ∈ t, c < 128 := by
+  unfold punyDecode at h
+  split at h
+  · cases h
+  · rename_i hany
+    intro c hc
+    have : ¬ (t.any (fun c => decide (c ≥ 128)) = true) := hany
+    rw [List.any_eq_true] at this
+    by_cases hlt : c < 128
+    · exact hlt
+    · exact absurd ⟨c, hc, by simp; omega⟩ this
+
+private theorem toUnicode_ascii (N : Nameprep) (l : List Nat) (r : Cps) (h : toUnicode N l = some r) : ∀ c ∈ l, c < 128 := by
+  unfold toUnicode at h
+  split at h
+  · cases h
+  · split at h
+    · split at h
+      · rename_i hall
+        intro c hc
+        have := (List.all_eq_true.mp hall) c hc
+        simpa using this
+      · cases h
+    · rename_i hace
+      have hp : aceCps.isPrefixOf l = true := by simpa using hace
+      cases hd : punyDecode (l.drop 4) with
+      | none => rw [hd] at h; cases h
+      | some res =>
+        have htail := punyDecode_ascii _ _ hd
+        rw [List.isPrefixOf_iff_prefix] at hp
+        obtain ⟨t, ht⟩ := hp
+        intro c hc
+        rw [← ht] at hc htail
+        have hdrop : (aceCps ++ t).drop 4 = t := by simp [aceCps]
+        rw [hdrop] at htail
+        rw [List.mem_append] at hc
+        rcases hc with hc | hc
+        · simp [aceCps] at hc; omega
+        · exact htail c hc
+
+private theorem mem_splitDot (raw : Bytes) : ∀ b ∈ raw, b = 0x2e ∨ ∃ l ∈ splitDot raw, b ∈ l := by
+  induction raw with
+  | nil => intro b hb; simp at hb
+  | cons x xs ih =>
+    intro b hb
+    simp only [List.mem_cons] at hb
+    by_cases hx : x = 0x2e
+    · rcases hb with rfl | hb
+      · exact Or.inl hx
+      · rcases ih b hb with h | ⟨l, hl, hbl⟩
+        · exact Or.inl h
+        · exact Or.inr ⟨l, by simp [splitDot, hx, hl], hbl⟩
+    · simp only [splitDot, if_neg hx]
+      cases hs : splitDot xs with
+      | nil =>
+        rcases hb with rfl | hb
+        · exact Or.inr ⟨[b], by simp, by simp⟩
+        · rcases ih b hb with h | ⟨l, hl, _⟩
+          · exact Or.inl h
+          · rw [hs] at hl; simp at hl
+      | cons l ls =>
+        rcases hb with rfl | hb
+        · exact Or.inr ⟨b :: l, by simp, by simp⟩
+        · rcases ih b hb with h | ⟨l', hl', hbl⟩
+          · exact Or.inl h
+          · rw [hs] at hl'
+            simp only [List.mem_cons] at hl'
+            rcases hl' with rfl | hl'
+            · exact Or.inr ⟨x :: l', by simp, by simp [hbl]⟩
+            · exact Or.inr ⟨l', by simp [hl'], hbl⟩
+
+private theorem decodeIdna_ascii (N : Nameprep) (raw : Bytes) (t : Cps) (h : decodeIdna N raw = some t) :
+    ∀ b ∈ raw, b.toNat < 128 := by
+  unfold decodeIdna at h
+  simp only at h
+  cases hm : mapAll (toUnicode N) (trimLabels ((splitDot raw).map (fun l => l.map UInt8.toNat))).1 with
+  | none => rw [hm] at h; cases h
+  | some rs =>
+    have hall := mapAll_some_mem _ _ _ hm
+    intro b hb
+    rcases mem_splitDot raw b hb with hdot | ⟨l, hl, hbl⟩
+    · subst hdot; decide
+    · -- the label of `b` is non-empty, so it survives `trimLabels`
+      have hlmem : l.map UInt8.toNat ∈ (trimLabels ((splitDot raw).map (fun l => l.map UInt8.toNat))).1 := by
+        have hin : l.map UInt8.toNat ∈ (splitDot raw).map (fun l => l.map UInt8.toNat) := List.mem_map.mpr ⟨l, hl, rfl⟩
+        unfold trimLabels
+        split
+        · rename_i hlast
+          -- the dropped element is the last one, which is []
+          obtain ⟨ys, hys⟩ := List.getLast?_eq_some_iff.mp hlast
+          rw [hys, List.dropLast_concat]
+          rw [hys, List.mem_append] at hin
+          rcases hin with hin | hin
+          · exact hin
+          · simp only [List.mem_singleton] at hin
+            have : l = [] := by simpa using hin
+            subst this; simp at hbl
+        · exact hin
+      obtain ⟨r, hr⟩ := hall _ hlmem
+      exact toUnicode_ascii N _ r hr b.toNat (List.mem_map.mpr ⟨b, hbl, rfl⟩)
+
+/-- **validHostN_ascii** — whatever nameprep does: a name `is_valid_host` accepts consists of ASCII bytes only (names without `xn--`
+    by the codec's fast path, names with `xn--` because every label is either ASCII or `xn--` + ASCII punycode). -/
+theorem validHostN_ascii (N : Nameprep) (nm : Bytes) (h : validHostN N nm = true) : ∀ b ∈ nm, b.toNat < 128 := by
+  unfold validHostN validHostT validHost at h
+  by_cases hi : idnaOk (hostLibOf (idnaOf N)) nm = false
+  · simp [hi] at h
+  · have hok : idnaOk (hostLibOf (idnaOf N)) nm = true := by simpa using hi
+    unfold idnaOk at hok
+    split at hok
+    · -- slow path: the transcribed codec decoded the name
+      simp only [hostLibOf, idnaOf, Option.isSome_map] at hok
+      cases hd : decodeIdna N nm with
+      | none => rw [hd] at hok; simp at hok
+      | some t => exact decodeIdna_ascii N nm t hd
+    · intro b hb
+      have := (List.all_eq_true.mp hok) b hb
+      simpa using this
+
+/-- **sni_is_ascii** — the accessor cannot raise: whatever `ClientHello.sni` returns (complete model, any parsed hello) is pure ASCII,
+    so the final `host_name.decode("ascii")` succeeds. -/
+theorem sni_is_ascii (h : Hello) (nm : Bytes) (hs : h.sni validHostFull = some nm) : ∀ b ∈ nm, b.toNat < 128 := by
+  unfold Hello.sni at hs
+  have := List.find?_some hs
+  exact validHostN_ascii theNameprep nm this
+
 
 /-! ## DTLS handshake fragmentation (finding F-C13a) -/
 
